@@ -41,6 +41,22 @@ def run(res, tier, seed, replay):
                                    seed + 89, dump=True, extra_args=["--twice"])
         hangs += th
     enctie.annotate_twice(trecs)
+    # the second solve judged for exactness with the verified checker exact_nextb (history of the first solve as context)
+    fake = []
+    for r in trecs:
+        if "obs2" not in r or r.get("p2") is None:
+            continue
+        fake.append({"case": r["case"], "_r": r,
+                     "runs": [{"label": "sync-twice", "mode": "Sync", "sched": None,
+                               "solves": [{"p": r["case"]["p"], "outcome": r["obs"]["outcome"]}, {"p": r["p2"], "outcome": r["obs2"]["outcome"]}],
+                               "calls": list(r["obs"]["calls"]) + ["n"] + list(r["obs2"]["calls"])}]})
+    al.judge_later_solves(fake)
+    for f in fake:
+        run = f["runs"][0]
+        if run.get("exact_next", {}).get(1) is False:
+            res.violation(ss.case_key(f["case"]), f"the second solve on one solver asked for metadata that its conflict-free problem does not "
+                          f"need, or not for all it needs (exact_nextb on the requests of the second solve, first solve completed normally) "
+                          f"in {f['_r']['stream']}", al.replay_obj(f, run))
     for r in trecs:
         if "enc2" not in r:
             continue
